@@ -985,8 +985,7 @@ class list_t(object):
         elif self.is_scalar:
             # Working with a scalar
             f = model.add_field()
-            mask_v = int(v) & self.mask
-            f.set_val(mask_v)
+            f.set_val(self._elem_val(v))
         else:
             if not issubclass(type(v), type(self.t)):
                 raise Exception("Attempting to append illegal element to object array")
@@ -996,6 +995,15 @@ class list_t(object):
             # Propagate randomization information
             v.get_model().is_declared_rand = self.get_model().is_declared_rand
             
+    def _elem_val(self, v):
+        # Value of a scalar element as the model holds it: reduced to the
+        # element width and, for signed elements, read as 2's complement
+        # (as for scalar fields)
+        v = int(v) & self.mask
+        if self.t.is_signed and (v & (1 << (self.t.width-1))) != 0:
+            v -= (1 << self.t.width)
+        return v
+        
     def extend(self, v):
         for vi in v:
             self.append(vi)
@@ -1131,7 +1139,7 @@ class list_t(object):
             self.get_model().field_l[k].set_val(val)
         elif self.is_scalar:
             self.get_model().field_l[k].set_val(
-                ValueScalar(int(v) & (1 << self.t.width)-1))
+                ValueScalar(self._elem_val(v)))
         else:
             if not issubclass(type(v), type(self.t)):
                 raise Exception("Attempting to assign illegal element to object array")
